@@ -316,6 +316,33 @@ async fn run_async(
     Ok(exit_code)
 }
 
+/// Adjusts a freshly instantiated shell on behalf of an external simulator (feature
+/// `verif-hooks`), e.g. to install simulated descriptors and extra builtins.
+#[cfg(feature = "verif-hooks")]
+pub trait VerifSetup {
+    /// Called once, after the shell has been instantiated and before anything runs in it.
+    fn setup<SE: brush_core::ShellExtensions>(self, shell: &mut brush_core::Shell<SE>);
+}
+
+/// Runs the shell the way [`run`] does once the command line is known, for an external
+/// simulator (feature `verif-hooks`): parses `cli_args`, instantiates the shell, lets `setup`
+/// adjust it, runs it through [`run_in_shell`] with the given input backend and returns the
+/// status the process would exit with.
+#[cfg(feature = "verif-hooks")]
+pub async fn verif_run(
+    cli_args: Vec<String>,
+    setup: impl VerifSetup,
+    input_backend: &mut impl brush_interactive::InputBackend,
+) -> Result<u8, brush_interactive::ShellError> {
+    let parsed_args = CommandLineArgs::try_parse_from(cli_args.iter().cloned())
+        .map_err(|e| brush_interactive::ShellError::IoError(std::io::Error::other(e)))?;
+    let mut shell: BrushShell = instantiate_shell(&parsed_args, &cli_args).await?;
+    setup.setup(&mut shell);
+    let shell = Arc::new(Mutex::new(shell));
+    let ui_options = config::Config::default().to_ui_options(&parsed_args);
+    run_in_shell(&shell, parsed_args, input_backend, &ui_options).await
+}
+
 /// Determines whether `run_in_shell` will run the shell interactively. Must be sync'd with it.
 const fn will_run_interactively(args: &CommandLineArgs) -> bool {
     if args.command.is_some() {
